@@ -145,3 +145,164 @@ Proof.
   f_equal. apply sum_ext; intros x _. ring.
 Qed.
 End GP.
+
+(* ---- the contraction with the orthonormal cores evaluates  sum over index tuples of (product rule) x (core entries) ---- *)
+Require Import Core Chain.
+Section Contraction.
+Context {R : cring}.
+Add Ring Rr32 : (cring_th R).
+Open Scope cr_scope.
+Variables (hlf : R -> R) (d d2 : nat) (b : nat -> R) (sg : nat -> nat -> R).
+Notation fjet := (@fjet R).
+Notation gen1 := (gen1 hlf d d2 b sg).
+Notation sgrad := (sgrad d sg).
+Notation tstep := (tstep hlf d d2 b sg).
+Notation comp := (comp hlf d d2 b sg).
+Notation lstep_mid := (lstep_mid hlf d d2 b sg).
+Notation NC := (2 + d2)%nat.
+
+(* the carried triple as a vector, and the matrix of one multiplication step *)
+Definition svec (s : tstate) (c : nat) : R := let '(P, LP, GP) := s in if Nat.eqb c 0 then P else if Nat.eqb c 1 then LP else GP (c - 2)%nat.
+Definition Tmat (f : fjet) (c0 c : nat) : R :=
+  if Nat.eqb c0 0 then comp f c
+  else if Nat.eqb c0 1 then (if Nat.eqb c 1 then fv f else 0)
+  else (if Nat.eqb c 1 then sgrad f (c0 - 2) else if Nat.eqb c c0 then fv f else 0).
+
+Lemma sum_NC (h : nat -> R) : sum NC h = h 0%nat + h 1%nat + sum d2 (fun k => h (2 + k)%nat).
+Proof. rewrite sum_plus. cbn [sum]. ring. Qed.
+
+Lemma Tmat_step (s : tstate) (f : fjet) c' : (c' < NC)%nat ->
+  sum NC (fun c => svec s c * Tmat f c c') = svec (tstep s f) c'.
+Proof.
+  intros Hc'. destruct s as [[P LP] GP]. rewrite sum_NC. unfold svec, Tmat, Gedmd.tstep, Gedmd.comp. cbn [Nat.eqb].
+  destruct c' as [|[|k]].
+  - cbn [Nat.eqb]. rewrite sum_zero'; [ring|]. intros j _. cbn [Nat.add Nat.eqb]. ring.
+  - cbn [Nat.eqb]. rewrite (sum_ext d2 _ (fun j => GP j * sgrad f j)); [ring|].
+    intros j _. cbn [Nat.add Nat.eqb Nat.sub]. rewrite Nat.sub_0_r. ring.
+  - cbn [Nat.eqb Nat.sub]. rewrite Nat.sub_0_r.
+    rewrite (sum_ext d2 _ (fun j => if Nat.eqb j k then GP j * fv f else 0)).
+    + rewrite (sum_single d2 k (fun j => GP j * fv f)) by lia. ring.
+    + intros j _. cbn [Nat.add Nat.eqb Nat.sub]. rewrite Nat.sub_0_r. rewrite (Nat.eqb_sym k j). destruct (Nat.eqb j k); ring.
+Qed.
+
+(* product of the step matrices along a selection of basis functions *)
+Fixpoint Tprod (js : list fjet) : nat -> nat -> R :=
+  match js with [] => delta | f :: js' => mmul NC (Tmat f) (Tprod js') end.
+Lemma Tprod_fold : forall (js : list fjet) (s : tstate) c', (c' < NC)%nat ->
+  sum NC (fun c => svec s c * Tprod js c c') = svec (fold_left tstep js s) c'.
+Proof.
+  induction js as [|f js IH]; intros s c' Hc'.
+  - cbn [Tprod fold_left]. unfold delta.
+    rewrite (sum_ext NC _ (fun c => if Nat.eqb c c' then svec s c else 0)) by (intros c _; destruct (Nat.eqb c c'); ring).
+    apply (sum_single NC c' (svec s)). exact Hc'.
+  - cbn [Tprod fold_left]. rewrite <- (IH (tstep s f) c' Hc'). unfold mmul.
+    transitivity (sum NC (fun c1 => sum NC (fun c => svec s c * Tmat f c c1) * Tprod js c1 c')).
+    + erewrite sum_ext; [|intros c _; rewrite <- sum_scal_l; reflexivity].
+      rewrite sum_swap. apply sum_ext; intros c1 _. rewrite <- sum_scal_r. apply sum_ext; intros c _. ring.
+    + apply sum_ext; intros c1 Hc1. rewrite (Tmat_step s f c1 Hc1). reflexivity.
+Qed.
+
+(* one coded contraction step in matrix form *)
+Lemma lstep_mid_T (v : cvec) (jets : list fjet) (u : core R) c' r' : (c' < NC)%nat ->
+  lstep_mid v jets u c' r' =
+  sum (md u) (fun ii => sum (rl u) (fun r => sum NC (fun c => v c r * Tmat (nth ii jets dj) c c') * g u r ii 0%nat r')).
+Proof.
+  intros Hc'. unfold Gedmd.lstep_mid. apply sum_ext; intros ii _. cbn zeta. apply sum_ext; intros r _. f_equal.
+  set (f := nth ii jets dj).
+  set (sr := (v 0%nat r, v 1%nat r, fun k => v (k + 2)%nat r) : tstate).
+  transitivity (svec (tstep sr f) c').
+  - unfold svec, sr, Gedmd.tstep. destruct c' as [|[|k]]; cbn [Nat.eqb Nat.sub]; try reflexivity.
+    rewrite Nat.sub_0_r. replace (k + 2)%nat with (S (S k)) by lia. reflexivity.
+  - rewrite <- (Tmat_step sr f c' Hc'). apply sum_ext; intros c _. f_equal.
+    unfold svec, sr. destruct c as [|[|k]]; cbn [Nat.eqb Nat.sub]; try reflexivity.
+    rewrite Nat.sub_0_r. replace (k + 2)%nat with (S (S k)) by lia. reflexivity.
+Qed.
+
+Definition cmode := (list fjet * core R)%type.
+Fixpoint lcontract (v : cvec) (modes : list cmode) : cvec :=
+  match modes with [] => v | m :: rest => lcontract (lstep_mid v (fst m) (snd m)) rest end.
+Definition nks (modes : list cmode) : list nat := map (fun m => md (snd m)) modes.
+Fixpoint select (modes : list cmode) (ss : list nat) : list fjet :=
+  match modes, ss with m :: rest, s :: ss' => nth s (fst m) dj :: select rest ss' | _, _ => [] end.
+Definition ucores (modes : list cmode) : list (core R) := map snd modes.
+Definition zeros (n : nat) := repeat 0%nat n.
+
+Lemma block_swap_2_3 n1 n2 m1 m2 m3 (F : nat -> nat -> nat -> nat -> nat -> R) :
+  sum n1 (fun i1 => sum n2 (fun i2 => sum m1 (fun j1 => sum m2 (fun j2 => sum m3 (fun j3 => F i1 i2 j1 j2 j3))))) =
+  sum m1 (fun j1 => sum m2 (fun j2 => sum m3 (fun j3 => sum n1 (fun i1 => sum n2 (fun i2 => F i1 i2 j1 j2 j3))))).
+Proof.
+  exact (msum_swap [n1; n2] [m1; m2; m3]
+           (fun l1 l2 => match l1, l2 with [i1; i2], [j1; j2; j3] => F i1 i2 j1 j2 j3 | _, _ => 0 end)).
+Qed.
+
+Theorem contraction_general : forall (modes : list cmode) (v : cvec) fin c' r',
+  linked (ucores modes) fin -> (c' < NC)%nat -> (r' < fin)%nat ->
+  lcontract v modes c' r' =
+  msum (nks modes) (fun ss => sum NC (fun c => sum (rl_of (ucores modes) fin) (fun r =>
+     v c r * Tprod (select modes ss) c c' * chain (ucores modes) ss (zeros (length modes)) r r'))).
+Proof.
+  induction modes as [|[jets u] rest IH]; intros v fin c' r' HL Hc' Hr'.
+  - cbn [lcontract nks map msum select ucores rl_of Tprod chain length zeros repeat]. unfold delta.
+    rewrite (sum_ext NC _ (fun c => if Nat.eqb c c' then v c r' else 0)).
+    + symmetry. apply (sum_single NC c' (fun c => v c r')). exact Hc'.
+    + intros c _. destruct (Nat.eqb c c').
+      * rewrite (sum_ext fin _ (fun r => if Nat.eqb r r' then v c r else 0)) by (intros r _; destruct (Nat.eqb r r'); ring).
+        apply (sum_single fin r' (fun r => v c r)). exact Hr'.
+      * apply sum_zero'; intros r _. ring.
+  - cbn [ucores map linked snd] in HL. destruct HL as (Hpos & Hlk & HL). fold (ucores rest) in Hlk, HL.
+    cbn [lcontract fst snd]. rewrite (IH _ fin c' r' HL Hc' Hr').
+    cbn [nks map msum snd ucores rl_of length]. fold (nks rest) (ucores rest).
+    change (zeros (S (length rest))) with (0%nat :: zeros (length rest)).
+    rewrite <- Hlk.
+    set (G := fun ii ss c r c1 r1 => v c r * Tmat (nth ii jets dj) c c1 * g u r ii 0%nat r1 *
+                                     (Tprod (select rest ss) c1 c' * chain (ucores rest) ss (zeros (length rest)) r1 r')).
+    transitivity (msum (nks rest) (fun ss => sum (md u) (fun ii => sum NC (fun c => sum (rl u) (fun r =>
+                    sum NC (fun c1 => sum (rr u) (fun r1 => G ii ss c r c1 r1))))))).
+    + apply msum_ext; intros ss _.
+      transitivity (sum NC (fun c1 => sum (rr u) (fun r1 => sum (md u) (fun ii => sum (rl u) (fun r => sum NC (fun c => G ii ss c r c1 r1)))))).
+      * apply sum_ext; intros c1 Hc1. apply sum_ext; intros r1 _.
+        rewrite (lstep_mid_T v jets u c1 r1 Hc1).
+        rewrite <- sum_scal_r, <- sum_scal_r. apply sum_ext; intros ii _.
+        rewrite <- sum_scal_r, <- sum_scal_r. apply sum_ext; intros r _.
+        rewrite <- sum_scal_r, <- sum_scal_r, <- sum_scal_r. apply sum_ext; intros c _. unfold G. ring.
+      * rewrite block_swap_2_3. apply sum_ext; intros ii _. rewrite sum_swap. reflexivity.
+    + rewrite <- (msum_sum (nks rest) (md u) (fun ii ss => sum NC (fun c => sum (rl u) (fun r =>
+                    sum NC (fun c1 => sum (rr u) (fun r1 => G ii ss c r c1 r1)))))).
+      apply sum_ext; intros ii _. apply msum_ext; intros ss _.
+      apply sum_ext; intros c _. apply sum_ext; intros r _.
+      cbn [select fst Tprod chain]. unfold mmul, cmat.
+      transitivity (v c r * (sum NC (fun c1 => Tmat (nth ii jets dj) c c1 * Tprod (select rest ss) c1 c') *
+                             sum (rr u) (fun r1 => g u r ii 0%nat r1 * chain (ucores rest) ss (zeros (length rest)) r1 r'))); [|ring].
+      rewrite <- sum_scal_r, <- sum_scal_l. apply sum_ext; intros c1 _.
+      rewrite <- sum_scal_l, <- sum_scal_l. apply sum_ext; intros r1 _. unfold G. ring.
+Qed.
+
+(* the coded head-of-chain step is the general step applied to the unit state *)
+Lemma lstep_first_unit (jets : list fjet) (u : core R) c r' : rl u = 1%nat ->
+  lstep_first hlf d d2 b sg jets u c r' = lstep_mid (fun c0 _ => svec tunit c0) jets u c r'.
+Proof.
+  intros H1. unfold Gedmd.lstep_first, Gedmd.lstep_mid. apply sum_ext; intros ii _. cbn zeta. rewrite H1. cbn [sum].
+  unfold svec, tunit, Gedmd.comp. cbn [Nat.eqb].
+  destruct c as [|[|k]]; cbn [Nat.eqb Nat.sub].
+  - ring.
+  - rewrite sum_zero'; [ring|]. intros jj _. replace (jj + 2)%nat with (S (S jj)) by lia. cbn [Nat.eqb]. ring.
+  - ring.
+Qed.
+
+(* the contraction started from the unit state: sum over index tuples of (Leibniz recursion at the tuple) x (core chain) *)
+Definition vunit : cvec := fun c _ => svec tunit c.
+Theorem contraction_is_sum (modes : list cmode) fin r' :
+  linked (ucores modes) fin -> rl_of (ucores modes) fin = 1%nat -> (r' < fin)%nat ->
+  lcontract vunit modes 1%nat r' =
+  msum (nks modes) (fun ss => gen_on_product hlf d d2 b sg (select modes ss) * chain (ucores modes) ss (zeros (length modes)) 0%nat r').
+Proof.
+  intros HL H1 Hr'. rewrite (contraction_general modes vunit fin 1%nat r' HL) by (try assumption; lia).
+  apply msum_ext; intros ss _. rewrite H1.
+  rewrite (sum_ext NC _ (fun c => svec tunit c * Tprod (select modes ss) c 1%nat * chain (ucores modes) ss (zeros (length modes)) 0%nat r')).
+  - rewrite sum_scal_r. rewrite (Tprod_fold (select modes ss) tunit 1%nat) by lia.
+    pose proof (tfold_closed hlf d d2 b sg (select modes ss)) as HT. unfold tfold in HT.
+    destruct (fold_left tstep (select modes ss) tunit) as [[P LP] GP]. destruct HT as (_ & HLP & _).
+    unfold svec. cbn [Nat.eqb]. rewrite HLP. reflexivity.
+  - intros c _. cbn [sum]. unfold vunit. ring.
+Qed.
+End Contraction.
